@@ -155,9 +155,6 @@ def _share(total: int, shard: int, nshards: int) -> int:
 
 
 def _run_generated(sub, ctx, tier, lib):
-    import hypothesis
-    from hypothesis import HealthCheck, Phase, given, settings
-
     total = sub.quick if tier == "quick" else sub.thorough
     n = _share(total, ctx.shard, ctx.nshards)
     if n <= 0:
@@ -166,8 +163,29 @@ def _run_generated(sub, ctx, tier, lib):
     t_end = time.time() + budget
     failing = {}
     sub_seed = (ctx.seed * 1000 + ctx.shard) * 131 + (api.h64(sub.name) % 10007)
+    # the run is split into chunks (own derived seed each) so that the time budget can stop generation
+    # between chunks; within a chunk an exceeded budget turns the remaining examples into no-ops
+    chunk = min(n, 250)
+    done = 0
+    k = 0
+    while done < n:
+        if time.time() > t_end:
+            ctx.skipped_budget += n - done
+            break
+        m = min(chunk, n - done)
+        v = _run_chunk(sub, ctx, m, sub_seed * 1009 + k, t_end, failing)
+        if v is not None:
+            return v
+        done += m
+        k += 1
+    return None
 
-    @hypothesis.seed(sub_seed)
+
+def _run_chunk(sub, ctx, n, seed, t_end, failing):
+    import hypothesis
+    from hypothesis import HealthCheck, Phase, given, settings
+
+    @hypothesis.seed(seed)
     @settings(
         max_examples=n,
         database=None,
